@@ -192,6 +192,18 @@ def check_case(seq, context, endian, align, res: JobResult, tier="quick"):
             d = bytearray(base)
             d[upos : upos + usz] = pat.to_bytes(usz, cfg.bo)
             ins.append(sc.model_decode(st, bytes(d), cfg, f"unit{ui}:{pat:#x}"))
+    if "dyn" in context and isinstance(o_n0, int):
+        # other lengths of the dynamic member: the units behind it move (and, aligned, are re-aligned at run time)
+        for n0 in (1, 0, 3):
+            b2 = bytearray(base)
+            b2[o_n0] = n0
+            info2: dict = {}
+            decode_with_mask(st, bytes(b2), cfg, info=info2)
+            for ui, (upos, usz) in enumerate(info2["units"]):
+                for pat in (0, (1 << (8 * usz)) - 1, int.from_bytes(bytes(range(0x81, 0x81 + usz)), "big"), *(1 << i for i in range(0, 8 * usz, 3))):
+                    d = bytearray(b2)
+                    d[upos : upos + usz] = pat.to_bytes(usz, cfg.bo)
+                    ins.append(sc.model_decode(st, bytes(d), cfg, f"n0={n0}:unit{ui}:{pat:#x}"))
     res.nontrivial += len(ins)
 
     def v2(kind, detail, reader, inp):
@@ -240,6 +252,34 @@ def check_case(seq, context, endian, align, res: JobResult, tier="quick"):
                 continue
             if not same(back, exp_val):
                 viol("write:reparse-differs", f"values={vals} dumps={out.hex()}: reparsed {back} expected {exp_val}", "compiled" if compiled else "interpreted", str(vals))
+    # ---- history: the byte AND bit order follow the endianness in effect when the data is processed (flip after loading, flip back)
+    other = "<" if endian == ">" else ">"
+    hist_in = [bytes(base), bytes((b ^ 0xFF) for b in base)]
+    if "dyn" in context and isinstance(o_n0, int):
+        hist_in[1] = bytes(b if i == o_n0 else (b ^ 0xFF) for i, b in enumerate(base))
+    for compiled, TT in L.T.items():
+        reader = "compiled" if compiled else "interpreted"
+        try:
+            for now in (other, endian):
+                L.cs[compiled].endian = now
+                cfg2 = Cfg(endian=now, align=align)
+                for data in hist_in:
+                    exp, end, mask = decode_with_mask(st, data, cfg2)
+                    res.evaluations += 1
+                    res.transitions += 2
+                    try:
+                        obj = TT(io.BytesIO(data))
+                        got = impl.norm(obj)
+                        out = obj.dumps()
+                    except Exception as e:  # noqa: BLE001
+                        viol("history:raises", f"loaded under {endian!r}, endianness now {now!r}, in={data[:end].hex()}: {impl.exc_sig(e)} {e!r}", reader, data.hex())
+                        continue
+                    if not same(got, exp):
+                        viol("history:value", f"loaded under {endian!r}, endianness now {now!r}, in={data[:end].hex()}: parsed {got}, expected {exp}", reader, data.hex())
+                    elif len(out) != end or any((out[i] ^ data[i]) & mask[i] for i in range(end)):
+                        viol("history:dump", f"loaded under {endian!r}, endianness now {now!r}, in={data[:end].hex()}: dumps {out.hex()}", reader, data.hex())
+        finally:
+            L.cs[compiled].endian = endian
     if len(res.samples) < 2:
         res.samples.append({"definition": text, "endian": endian, "align": align, "context": context, "units": units, "inputs": len(ins)})
 
@@ -274,7 +314,7 @@ def meta(tier):
         "rule": "case = (sequence of (storage type, width) bit-fields, neighbour context, endian, align, reader, unit content | written values); all "
         "width sequences of length <=3 (thorough 4) per storage type over per-type width alphabets (uint8: all widths), mixed-storage sequences, "
         "8 neighbour contexts; unit contents: all 256 for 8-bit units, single-bit / two-bit / all-ones / counter patterns for wider ones; "
-        "straddling sequences must be rejected at load; written values from {0,1,max,1010..} per field (product); non-trivial = every unit-content "
+        "dynamic member lengths 0..3 in the dyn contexts; endianness flipped after loading and back (history); straddling sequences must be rejected at load; written values from {0,1,max,1010..} per field (product); non-trivial = every unit-content "
         "input and every straddle definition",
         "bounds": {"max_fields": 3 if tier == "quick" else 4, "storage_types": list(STORAGE), "contexts": list(CONTEXTS)},
         "assumptions": ["values that do not fit their width are outside the statement ('for every value that fits')"],
